@@ -871,4 +871,18 @@ Section Proofs.
     intros H1 Hn He H2. destruct (flagged _ _ _ _ _ H1 Hn) as [_ Hc]. rewrite He in Hc.
     eapply sticky; eauto. tauto.
   Qed.
+
+  (** a consumer by hand: what [recv] returned is a gap-free prefix of the expected events, followed
+      by the error if there was one (and then nothing) *)
+  Lemma hand_log c0 acts s i r :
+    run I acts (init_state I c0) = Some s -> nth_error (rsubs s) i = Some r -> r_mirror r = false ->
+    exists n, r_log r = map REv (firstn n (expected I (hist s) r)) ++
+                        match r_err r with None => [] | Some c => [RErr c] end.
+  Proof.
+    intros Hrun Hn Hm. destruct (flagged _ _ _ _ _ Hrun Hn) as [Hp Hc]. cbv zeta in *.
+    exists (length (evs_of I (r_log r))). rewrite <- Hp.
+    destruct (r_err r) as [c|].
+    - destruct Hc as (_ & [[Hl _]|(Hm' & _)]); [exact Hl|congruence].
+    - destruct Hc as [Hl _]. now rewrite app_nil_r.
+  Qed.
 End Proofs.
